@@ -172,6 +172,50 @@ Definition combine_main (P : Z) (U : nat) (t : list vrow)
   Some (comb, rows, prel_exps rows).
 
 (* ------------------------------------------------------------------ *)
+(* structural equalities for the correspondence files (NaN is the same as NaN here) *)
+Definition xz_same (a b : xz) : bool :=
+  match a, b with
+  | Fin x, Fin y => x =? y
+  | PInf, PInf | NInf, NInf | NaN, NaN => true
+  | _, _ => false
+  end.
+Fixpoint lxz_same (l1 l2 : list xz) : bool :=
+  match l1, l2 with
+  | [], [] => true
+  | a :: r, b :: s => xz_same a b && lxz_same r s
+  | _, _ => false
+  end.
+Definition onat_same (a b : option nat) : bool :=
+  match a, b with
+  | None, None => true
+  | Some x, Some y => Nat.eqb x y
+  | _, _ => false
+  end.
+Definition urow_same (a b : urow) : bool :=
+  xz_same (u_dl a) (u_dl b) && lxz_same (u_params a) (u_params b) && onat_same (u_fcn a) (u_fcn b)
+  && xz_same (u_nll a) (u_nll b) && xz_same (u_codelen a) (u_codelen b) && xz_same (u_aifeyn a) (u_aifeyn b).
+(* the columns of final_<n>.dat other than Prel (f_uniq is not in the file) *)
+Definition frow_obs_same (a b : frow) : bool :=
+  Nat.eqb (f_rank a) (f_rank b) && onat_same (f_fcn a) (f_fcn b) && xz_same (f_dl a) (f_dl b)
+  && xz_same (f_nll a) (f_nll b) && xz_same (f_codelen a) (f_codelen b) && xz_same (f_aifeyn a) (f_aifeyn b)
+  && lxz_same (f_params a) (f_params b).
+Fixpoint all2 {A} (e : A -> A -> bool) (l1 l2 : list A) : bool :=
+  match l1, l2 with
+  | [], [] => true
+  | a :: r, b :: s => e a b && all2 e r s
+  | _, _ => false
+  end.
+(* expected = None: the implementation raised *)
+Definition main_agrees (P : Z) (U : nat) (t : list vrow) (expected : option (list urow * list frow)) : bool :=
+  match combine_main P U t, expected with
+  | None, None => true
+  | Some (comb, rows, _), Some (ecomb, erows) => all2 urow_same comb ecomb && all2 frow_obs_same rows erows
+  | _, _ => false
+  end.
+Definition main_exps (P : Z) (U : nat) (t : list vrow) : list xz :=
+  match combine_main P U t with Some (_, _, e) => e | None => [] end.
+
+(* ------------------------------------------------------------------ *)
 (* relative probabilities over the reals (lines 162-164)               *)
 From Coq Require Import Reals.
 
